@@ -122,6 +122,20 @@ def oracle(c, st):
                         return ('C04:closed-collinear' + (':after-retrace' if retraced else ''), 'vertex %d of a closed loop is collinear with its neighbours' % i)
                 for q in v:
                     if abs(dot(n, sub(v[0], q))) > Fr(1, 10 ** 6): return ('C04:closed-nonplanar', 'closed loop is not planar')
+                # no two non-adjacent edges of a closed loop properly cross (clear crossings only: interior to both by 1%, angle > 0.6 deg)
+                ax = dominant_axis(n); pv2 = [project(q, ax) for q in v]
+                for i in range(m):
+                    for j in range(i + 2, m):
+                        if i == 0 and j == m - 1: continue
+                        a, b, c2, d2 = pv2[i], pv2[(i + 1) % m], pv2[j], pv2[(j + 1) % m]
+                        pr = seg_params2(a, b, c2, d2)
+                        if pr is None: continue
+                        t, u = pr; mg = Fr(1, 100)
+                        if mg < t < 1 - mg and mg < u < 1 - mg:
+                            e1 = sub(v[(i + 1) % m], v[i]); e2 = sub(v[(j + 1) % m], v[j]); cr = len2(cross(e1, e2))
+                            if cr * 10000 > len2(e1) * len2(e2):
+                                short = cr < Fr(1, 10 ** 5) * Fr(101, 100)
+                                return ('C04:closed-self-crossing' + (':short-edges' if short else ''), 'edges %d and %d of a closed loop properly cross' % (i, j))
         if cur['closed'] and len(cur['v']) < 3:
             return ('C04:closed-lt3', 'the loop is marked closed with %d vertices (outcome class %d)' % (len(cur['v']), cur['o']))
         if op['k'] == 1 and cur['o'] == 0 and not prev['closed']:
